@@ -38,6 +38,11 @@ def custom_simplify_logic(expr):
         return simplify_logic(expr)
 
 
+def is_return_bit(s: Symbol) -> bool:
+    """True for the symbols of the return value (_ret, _ret.0, _ret.1.0, ...)"""
+    return s.name == "_ret" or s.name.startswith("_ret.")
+
+
 def merge_expressions(exps: BoolExpList) -> BoolExpList:
     n_exps = []
     emap: Dict[Symbol, Boolean] = {}
@@ -46,7 +51,7 @@ def merge_expressions(exps: BoolExpList) -> BoolExpList:
         e = e.xreplace(emap)
         e = custom_simplify_logic(e)
 
-        if s.name[0:4] != "_ret":
+        if not is_return_bit(s):
             emap[s] = e
         else:
             n_exps.append((s, e))
